@@ -320,6 +320,12 @@ func (ma *MatrixAdjustment) interpolate(tf stringTransformer) error {
 	if err := interpolateMap(tf, ma.With); err != nil {
 		return err
 	}
+	// Skip is a bool or a reason string.
+	skip, err := interpolateAny(tf, ma.Skip)
+	if err != nil {
+		return err
+	}
+	ma.Skip = skip
 	return interpolateMap(tf, ma.RemainingFields)
 }
 
